@@ -170,6 +170,26 @@ CLAIMED = {
         ref='DESIGN.md §6 C16', note='partial: argparse, pickle, process exit codes and file handling are runtime behaviour, exercised by the subprocess differential only. General idempotence of '
              'optimize is false on heads that optimise into an operator (witness proved); general resolve/expand idempotence is not proved.',
         technique='Lean 4 proof (fixed-point and recomputation lemmas, kernel-evaluated idempotence on library code) + four-path subprocess differential'),
+    'C10': dict(
+        text='About the recursive-descent reader model: read_total (by type: expression, the parse error, or unsupported - nothing else), '
+             'read_consumes_all, dec_value (every decimal numeral of any length lexes to the number it denotes, via core\'s ofDigitChars_ten_toDigits), '
+             'natOfDigits_ten, hexDigitVal_dec, toDigits_all_dig, natOfDigits_append, unescape_plain, unescape_escape (for every ASCII string the '
+             'reader\'s unescaping inverts the printer\'s escaping), kernel-evaluated literals in every position (top level, list, after quote, @ '
+             'offset, slice bounds, 0x / 0b / signed decimal, 50-digit numerals), layouts, comments and rejected texts. Correspondence: 4000+ random, '
+             'grammar-generated and mutated texts through the real Lark reader and the model; search oracle = totality (only ParseError), literal '
+             'denotation by position, layout invariance, whole-input consumption, shebang.',
+        ref='DESIGN.md §6 C10', note='The Lark LALR tables / contextual lexer are not translated: the model is a hand-written recursive descent whose agreement with the real reader is by correspondence only. '
+             'Floats denote float(text) (compared by bits); non-ASCII input and exotic string escapes are unsupported in the model (skipped, counted).',
+        technique='Lean 4 proof (numeral and escaping lemmas, totality by type) + reader correspondence and literal/ layout oracles'),
+    'C11': dict(
+        text='stringBody_plain / stringBody_pair / stringBody_escape and string_token_roundtrip (for every ASCII string, incl. quote, backslash, newline, '
+             'tab: the printed literal followed by any text scans back to exactly that string and that rest), dec_roundtrip, kernel-evaluated round '
+             'trips over all expression shapes and the shorthand equations (e@k ~s #s e[i] e[h:l] quote forms, three bracket pairs, nested '
+             'operands). Correspondence: generated expressions: Lean printer vs wal_str text, Lean reader vs Lark; search oracle = read(print(read(src))) '
+             '== read(src) and shorthand text vs long-form text on the implementation.',
+        ref='DESIGN.md §6 C11', note='partial: the general theorem read(walStr e) = e for all readable e is proved on the reduced grammar of the prototype (notes/prototypes/lean/RT.lean) only; on the full grammar the '
+             'string and numeral tokens are proved, the rest is by correspondence. ~s with an operator-named s keeps the symbol (long form reads the operator): outside the quantifier.',
+        technique='Lean 4 proof (token-level round trip for strings and numerals) + printer/reader correspondence and round-trip oracle'),
 }
 
 REASONS_PENDING = 'check under construction in this round (DESIGN.md §13 build order); not a claim of inapplicability'
